@@ -1,5 +1,6 @@
 import C2paModel.Base
 import C2paModel.Model.C04
+import C2paModel.Gen.C33Remap
 /-
 C33 — model of the CAWG identity-assertion decision logic:
 
@@ -9,11 +10,18 @@ C33 — model of the CAWG identity-assertion decision logic:
   hard-binding rule, duplicate rule, which failures stop and which continue (the reader's
   status tracker continues after `failure(..)?`);
 * the `sig_type` dispatch and code mapping of `IdentityAssertion::validate_partial_claim`
-  (`cawg.x509.cose`: COSE parse / verify outcome, remapped credential codes, success codes);
-* the state function and its tolerated-code set are C04's (`cawg.x509.` prefix only).
+  (`cawg.x509.cose`: COSE parse / verify outcome, success codes), and the rewrite of the C2PA
+  codes the shared COSE verification logs into `cawg.x509.*` codes
+  (`remap_x509_cose_status_codes`, sdk/src/identity/x509/x509_status_remap.rs; the table is
+  regenerated from the source by translators/c33_remap.py, unlisted codes pass through);
+* how the logged statuses reach the validation results (`Reader::post_validate` with a
+  `CawgValidator`: the statuses of an ingredient's manifest carry the ingredient URI and land in
+  that ingredient's delta; `Manifest::from_store`: active manifest);
+* the state function, `add_status` and the tolerated-code set are C04's (`cawg.x509.` prefix only).
 
-COSE parsing, signature verification, certificate profile / trust are facts supplied with the
-input (oracles). URLs are ASCII character lists, hashes byte lists.
+Whether the COSE structure parses, whether the signature verifies and *which* C2PA codes the
+certificate profile / trust checks log are facts supplied with the input (oracles); what is done
+with them is modelled. URLs are ASCII character lists, hashes byte lists.
 -/
 namespace C2pa.C33
 
@@ -32,6 +40,8 @@ def cSigTypeUnknown : Code := "cawg.identity.sig_type.unknown".toList
 def cWellFormed : Code := "cawg.identity.well-formed".toList
 def cSigValidated : Code := "cawg.x509.signature.validated".toList
 def cSigMismatch : Code := "cawg.x509.signature.mismatch".toList
+/-- what `parse_cose_sign1` logs (C2PA code, before the remap) -/
+def cClaimSigMismatch : Code := "claimSignature.mismatch".toList
 
 structure HUri where
   url : List Char
@@ -103,13 +113,28 @@ def checkAgainstClaim (refs claim : List HUri) : Bool × List Entry :=
     let hb := if !(refs.any fun r => isHardBindingRef r.url) then [failE cHardBinding] else []
     (true, log ++ hb ++ dupLog (refs.map (·.url)) [])
 
-/-- Outcome of the COSE part for `cawg.x509.cose` (oracle): remapped credential entries logged
-while verifying, and how it ended. -/
+/-! #### `remap_x509_cose_status_codes` -/
+
+/-- The arms of the `match old_code` (generated from the source). -/
+def remapTable : List (Code × Code) := Gen.remapTable.map fun p => (p.1.toList, p.2.toList)
+
+/-- One log item: a listed code is replaced, any other code is left as it is (`_ => continue`). -/
+def remap (c : Code) : Code :=
+  match remapTable.find? (fun p => p.1 == c) with
+  | some p => p.2
+  | none => c
+
+/-- The guard rewrites every item logged inside its scope; the kind is not touched. -/
+def remapLog (l : List Entry) : List Entry := l.map fun e => (remap e.1, e.2)
+
+/-- How the COSE part for `cawg.x509.cose` ended (oracle). -/
 inductive SigEnd | verified | mismatch | otherError | parseError
   deriving DecidableEq, Repr
 
+/-- `raw`: the statuses the shared COSE verification (`Verifier::verify_signature`: certificate
+profile, trust) logged, with their C2PA codes, i.e. before the remap (oracle). -/
 structure Sig where
-  entries : List Entry   -- remapped `cawg.x509.*` entries (profile / trust)
+  raw : List Entry
   outcome : SigEnd
   deriving DecidableEq, Repr
 
@@ -124,8 +149,24 @@ structure Identity where
   sig : Sig
   deriving DecidableEq, Repr
 
-/-- `validate_partial_claim` (sync, `cawg.x509.cose` path; ICA is out of scope): result ok? and
-the entries logged. -/
+/-- What is logged inside the remap guard's scope, before the rewrite.
+* the COSE structure does not parse: `parse_cose_sign1` logs `claimSignature.mismatch` itself and
+  nothing else runs;
+* `verify_signature` fails with `SignatureMismatch`, or with any other error (no certificate chain,
+  unparseable certificate, unsupported algorithm, …): `cawg.x509.signature.mismatch` is logged
+  after whatever the profile / trust checks logged (follows the repaired code,
+  fixes/C33-report-unverifiable-identity-signature.patch: before the repair the "any other error"
+  arm logged nothing, and the assertion was skipped silently when the lower level had not logged
+  either). -/
+def guardScopeLog (s : Sig) : List Entry :=
+  match s.outcome with
+  | .verified => s.raw
+  | .mismatch => s.raw ++ [failE cSigMismatch]
+  | .otherError => s.raw ++ [failE cSigMismatch]
+  | .parseError => [failE cClaimSigMismatch]
+
+/-- `validate_partial_claim` (`cawg.x509.cose` path; ICA is out of scope; the `_async` twin is the
+same code through `async_generic`): result ok? and the entries logged. -/
 def validate (ia : Identity) (claim : List HUri) : Bool × List Entry :=
   let pl := padLog ia.pad1 ia.pad2
   match checkAgainstClaim ia.refs claim with
@@ -134,23 +175,58 @@ def validate (ia : Identity) (claim : List HUri) : Bool × List Entry :=
     match ia.sigType with
     | .x509 =>
       match ia.sig.outcome with
-      | .verified => (true, pl ++ l ++ ia.sig.entries ++ [succ cSigValidated, succ cWellFormed])
-      | .mismatch => (false, pl ++ l ++ ia.sig.entries ++ [failE cSigMismatch])
-      | .otherError => (false, pl ++ l ++ ia.sig.entries)
-      | .parseError => (false, pl ++ l ++ ia.sig.entries)
+      | .verified =>
+        (true, pl ++ l ++ remapLog (guardScopeLog ia.sig) ++ [succ cSigValidated, succ cWellFormed])
+      | _ => (false, pl ++ l ++ remapLog (guardScopeLog ia.sig))
     | .ica => (false, pl ++ l)
     | .other => (false, pl ++ l)   -- `Err(UnknownSignatureType)`; nothing is logged
 
 def toCodes (l : List Entry) : C04.Codes :=
   l.foldl (fun c e => c.add { code := e.1, kind := e.2, uri := none }) {}
 
-/-- State of the manifest: the identity entries plus `rest`, the entries of the C2PA checks. -/
+/-- State of the manifest: the identity entries plus `rest`, the entries of the C2PA checks
+(`Manifest::from_store`: the identity assertion of the active manifest). -/
 def manifestState (ia : Identity) (claim : List HUri) (rest : List Entry) : C04.State :=
   C04.state { active := some (toCodes (rest ++ (validate ia claim).2)), deltas := none }
+
+/-- A logged entry as a validation status: `uri` is the ingredient URI that was on the tracker's
+stack while the entry was logged (`none` = logged for the active manifest). -/
+def toStatus (uri : Option (List Char)) (e : Entry) : C04.Status :=
+  { code := e.1, kind := e.2, uri := uri }
+
+/-- `Reader::post_validate`: every status of the validator's log is added, in order, to the
+results the reader already holds. -/
+def postValidate (base : C04.Results) (uri : Option (List Char)) (log : List Entry) : C04.Results :=
+  (log.map (toStatus uri)).foldl C04.addStatus base
+
+/-- Results after CAWG post-validation of one identity assertion found in the active manifest
+(`uri = none`) or in the manifest of the ingredient `uri`. -/
+def manifestResultsAt (ia : Identity) (claim : List HUri) (base : C04.Results)
+    (uri : Option (List Char)) : C04.Results :=
+  postValidate base uri (validate ia claim).2
+
+def manifestStateAt (ia : Identity) (claim : List HUri) (base : C04.Results)
+    (uri : Option (List Char)) : C04.State :=
+  C04.state (manifestResultsAt ia claim base uri)
 
 /-! ### line protocol -/
 
 def parseHex (s : String) : List Nat := ((fromHex? s).getD []).map UInt8.toNat
+
+/-- the request is answered only when every hex field parses (no silent default) -/
+def hexOk (s : String) : Bool := (fromHex? s).isSome
+
+def urisOk (s : String) : Bool :=
+  s == "-" || (s.splitOn ",").all fun t =>
+    match t.splitOn "~" with
+    | [_, h] => hexOk h
+    | _ => false
+
+def entriesOk (s : String) : Bool :=
+  s == "-" || (s.splitOn ",").all fun t =>
+    match t.splitOn ":" with
+    | [k, _] => k == "s" || k == "i" || k == "f"
+    | _ => false
 
 /-- `url~hash` items separated by `,` (url has no `,`/`~`/space) -/
 def parseUris (s : String) : List HUri :=
@@ -189,21 +265,62 @@ def parseIdentity (toks : List String) : Identity :=
     sigType := if st == "x509" then .x509 else if st == "ica" then .ica else .other,
     pad1 := parseHex (field toks "pad1"),
     pad2 := let p := field toks "pad2"; if p == "none" then none else some (parseHex p),
-    sig := { entries := parseEntries (field toks "sigentries"),
+    sig := { raw := parseEntries (field toks "sigraw"),
              outcome := if oc == "ok" then .verified else if oc == "mismatch" then .mismatch
                         else if oc == "parse" then .parseError else .otherError } }
+
+def requestOk (toks : List String) : Bool :=
+  urisOk (field toks "refs") && urisOk (field toks "claim") && hexOk (field toks "pad1")
+    && (field toks "pad2" == "none" || hexOk (field toks "pad2"))
+    && entriesOk (field toks "sigraw")
+    && (field toks "sigtype" == "x509" || field toks "sigtype" == "ica" || field toks "sigtype" == "other")
+    && (field toks "sig" == "ok" || field toks "sig" == "mismatch" || field toks "sig" == "parse"
+        || field toks "sig" == "other")
+
+/-- deltas: `-` (none), `[]`, or `uri~s;i;f` items separated by `|` -/
+def parseBase (toks : List String) : C04.Results :=
+  let a := field toks "A"
+  let d := field toks "D"
+  { active := if a == "-" then none else some (C04.parseSC a)
+    deltas :=
+      if d == "-" then none
+      else if d == "[]" then some []
+      else some ((d.splitOn "|").map fun e =>
+        match e.splitOn "~" with
+        | [u, sc] => { uri := u.toList, codes := C04.parseSC sc }
+        | _ => { uri := [], codes := {} }) }
+
+def baseStr (r : C04.Results) : String :=
+  let a := match r.active with | none => "-" | some c => C04.scStr c
+  let d := match r.deltas with
+    | none => "-"
+    | some [] => "[]"
+    | some ds => "|".intercalate (ds.map fun d => String.ofList d.uri ++ "~" ++ C04.scStr d.codes)
+  "A=" ++ a ++ " D=" ++ d
 
 def handle (toks : List String) : String :=
   match toks with
   | "vpc" :: rest =>
+    if !requestOk rest then "bad-input" else
     let o := validate (parseIdentity rest) (parseUris (field rest "claim"))
     (if o.1 then "ok" else "err") ++ " log=" ++ logStr o.2
   | "e2e" :: rest =>
+    if !requestOk rest || !entriesOk (field rest "rest") then "bad-input" else
     let ia := parseIdentity rest
     let claim := parseUris (field rest "claim")
     (manifestState ia claim (parseEntries (field rest "rest"))).str ++ " log=" ++
       sortedLogStr (validate ia claim).2
+  | "e2ei" :: rest =>
+    -- identity assertion in the manifest `iuri` names (`-`: the active manifest), validated by
+    -- `Reader::post_validate_async(&CawgValidator)` on top of the results `A=`/`D=`
+    if !requestOk rest then "bad-input" else
+    let ia := parseIdentity rest
+    let claim := parseUris (field rest "claim")
+    let u := field rest "iuri"
+    let r := manifestResultsAt ia claim (parseBase rest) (if u == "-" then none else some u.toList)
+    (C04.state r).str ++ " " ++ baseStr r
   | "strip" :: rest => String.ofList (stripAbs (field rest "u").toList)
+  | "remap" :: rest => String.ofList (remap (field rest "c").toList)
   | _ => "bad-op"
 
 end C2pa.C33
